@@ -201,4 +201,31 @@ theorem entryTrees_mem (nS nM : Nat) (bank : List (List Nat)) :
         · obtain ⟨dat', h1, h2⟩ := entryTrees_mem nS nM bank rest ts' hr p hp'
           exact ⟨dat', h1, List.mem_cons_of_mem _ h2⟩
 
+
+/-- the index-bearing event `ev`, pushed while the hook handles the song event `it.ev` with the
+writer in state `w`, carries the index registered (in `c'`) under the key that `it.ev` names -/
+def EventNames (d : DataInfo) (it : TraceItem) (w : WState) (c' : Conv) (ev : MEv) : Prop :=
+  (ev.type = mds_PAT → it.ev.type = ev_JUMP ∧ ∃ k : Nat, ev.arg = u16 (k : Int) ∧
+    (subKey it.ev.param false w.drumEnabled, k) ∈ c'.subMap) ∧
+  (ev.type = mds_INS ∨ ev.type = mds_PCM → it.ev.type = ev_INS ∧ ∃ idx i : Nat,
+    d.envelopeMap.lookup it.ev.param = some idx ∧ ev.arg = u16 (i : Int) ∧
+    ((ev.type = mds_INS ∧ (idx, i) ∈ c'.usedData) ∨ (ev.type = mds_PCM ∧ (0x20000 + idx, i) ∈ c'.usedData))) ∧
+  (ev.type = mds_PEG → ev.arg ≠ 0 → it.ev.type = ev_PITCH_ENVELOPE ∧ ∃ idx i : Nat,
+    d.pitchMap.lookup it.ev.param = some idx ∧ ev.arg = u16 (wrap16 ((i : Int) + 1)) ∧
+    ((if d.pitchExtend.contains it.ev.param then 0x10000 + idx else idx), i) ∈ c'.usedData) ∧
+  (ev.type = mds_MTAB → ev.arg ≠ 0 → it.ev.type = ev_PAN_ENVELOPE ∧ ∃ k : Nat,
+    ev.arg = u16 (wrap16 ((k : Int) + 1)) ∧ (it.ev.param, k) ∈ c'.macroMap)
+
+theorem eventNames_of_plain {d : DataInfo} {it : TraceItem} {w : WState} {c' : Conv} {ev : MEv} (h : Plain ev) :
+    EventNames d it w c' ev :=
+  ⟨fun t => absurd t h.1, fun t => t.elim (fun x => absurd x h.2.1) (fun x => absurd x h.2.2.1),
+   fun t ne => absurd (h.2.2.2.1 t) ne, fun t ne => absurd (h.2.2.2.2 t) ne⟩
+
+theorem eventNames_append {d : DataInfo} {it : TraceItem} {w : WState} {c' : Conv} {pre : List MEv} {ev : MEv}
+    (hpre : ∀ x ∈ pre, Plain x) (hev : EventNames d it w c' ev) : ∀ x ∈ pre ++ [ev], EventNames d it w c' x := by
+  intro x hx
+  rcases List.mem_append.mp hx with hx | hx
+  · exact eventNames_of_plain (hpre x hx)
+  · rw [List.mem_singleton] at hx; subst hx; exact hev
+
 end Ctrmml.MdsFile
